@@ -355,7 +355,7 @@ void fff_array_extrema (double* min, double* max, const fff_array* thisone)
     val = fff_array_get_from_iterator(thisone, iter);
     if (val < *min)
       *min = val;
-    else if (val > *max)
+    if (val > *max)
       *max = val;
     fff_array_iterator_update(&iter);
   }
